@@ -36,7 +36,7 @@ ASSUMPTIONS = ['ridge weight 0', 'training RDMs non-constant, basis RDMs linearl
                'sigma_k SPD cond <= 20']
 FITTERS = ['fit_regress', 'fit_regress_nn', 'fit_optimize', 'fit_optimize_positive', 'fit_select', 'fit_interpolate']
 REQUIRED = ['check:optimal:' + f for f in FITTERS] + ['check:selection_only', 'check:model_laws',
-                                                      'check:default_fitter', 'competitors_scored', 'bootstrap_selections']
+                                                      'check:default_fitter', 'check:fitter_object', 'competitors_scored', 'bootstrap_selections']
 REACH = FITTERS + ['_nn_least_squares', '_loss', 'ModelWeighted.predict', 'ModelWeighted.predict_rdm',
                    'ModelSelect.predict_rdm', 'ModelInterpolate.predict_rdm', 'ModelFixed.predict_rdm',
                    'model_from_dict']
@@ -552,9 +552,55 @@ def run_rank_deficient(ctx):
                  f'non-negative competitor {best_c} scores {best!r}', wit(theta=theta, competitor=best_c))
 
 
+def run_fitter_object(ctx):
+    """a Fitter object behaves as its fitting function with the stored settings -- on every call, whatever was passed
+    to earlier calls of the same object"""
+    from rsatoolbox.model.fitter import Fitter
+    rng = ctx.rng
+    prob = make_problem(rng)
+    prob['selk'], prob['pos'] = 'all', list(range(prob['n_cond']))
+    fname = gen.pick(rng, ['fit_regress', 'fit_regress_nn'])
+    fn = {'fit_regress': fit_regress, 'fit_regress_nn': fit_regress_nn}[fname]
+    stored = gen.pick(rng, [{}, {'ridge_weight': 0.5}, {'normalize': False}])
+    fobj = Fitter(fn, **stored)
+    model = ModelWeighted('w', model_rdms(prob))
+    sig = dict(fitter='Fitter(' + fname + ')', stored=','.join(sorted(stored)) or 'none')
+    wit = lambda **k: dict(basis=prob['basis'], data=prob['data'], stored=stored, fitter=fname, **k)  # noqa: E731
+    n_sub = prob['n_cond']
+    calls = []
+    for _ in range(int(rng.integers(2, 4))):
+        kw = {}
+        if rng.integers(2):
+            kw['method'] = gen.pick(rng, ['corr', 'cosine'])
+        if rng.integers(2):
+            pos = sorted(int(i) for i in rng.choice(n_sub, size=int(rng.integers(4, n_sub + 1)), replace=False))
+            kw['pattern_idx'] = np.array(pos)
+            kw['pattern_descriptor'] = 'index'
+        calls.append(kw)
+    for i, kw in enumerate(calls):
+        def data_for(kw):
+            d = RDMs(prob['data'].copy())
+            return d if 'pattern_idx' not in kw else d.subsample_pattern('index', kw['pattern_idx'])
+        ok, got = ctx.guarded('fitter_object', sig, fobj, model, data_for(kw), data=wit, **kw)
+        ok2, want = ctx.guarded('fitter_object', sig, fn, model, data_for(kw), data=wit, **dict(stored, **kw))
+        if not (ok and ok2):
+            return
+        ctx.case('fitter_object', dict(sig, call=i))
+        if not np.array_equal(np.asarray(got, dtype=float), np.asarray(want, dtype=float)):
+            ctx.fail('fitter_object', dict(sig, what='history_dependent'), f'call {i} of the Fitter object with {sorted(kw)} '
+                     f'returned {np.asarray(got).tolist()}, the fitting function with the stored settings returns '
+                     f'{np.asarray(want).tolist()} (earlier calls: {[sorted(c) for c in calls[:i]]})', wit(calls=calls))
+            return
+    if fobj.kwargs != stored:
+        ctx.fail('fitter_object', dict(sig, what='stored_settings_changed'), f'stored settings {stored} became '
+                 f'{fobj.kwargs}', wit(calls=calls))
+
+
 def run(ctx):
     for _ in range(ctx.n(2500, 4000)):
         run_rank_deficient(ctx)
+    for _ in range(ctx.n(40, 120)):
+        run_fitter_object(ctx)
     n = ctx.n(100, 300)
     for it in range(n):
         if ctx.out_of_time():
